@@ -159,7 +159,7 @@ run_bin_pair(int op, const vpair_t *vp) {
 		vs_get(sa, i, &a);
 		for (ca = cap_min(&a); ca <= MAXCAP; ca ++) {
 			if (vp->lite && ca != ((B_MULT == op) ? 3u : 2u)) continue;	/* exhaustive 1x2-digit sets: the capacity where both overflow and success occur */
-			if (!vh_begin(bin_name[op])) continue;
+			if (!begin_case(bin_name[op])) continue;
 			d_op = bin_name[op]; d_a = a; d_cap = ca; d_set = vs_name(sb);
 			vh_publish_desc();
 			for (j = 0; j < sb->n; j ++) {
@@ -363,7 +363,7 @@ run_un_set(int op, const vun_t *vu) {
 		vs_get(sa, i, &a);
 		for (ca = cap_min(&a); ca <= MAXCAP; ca ++) {
 			if (vu->lite && ca != cap_min(&a) && ca != MAXCAP) continue;
-			if (!vh_begin(un_name[op])) continue;
+			if (!begin_case(un_name[op])) continue;
 			d_op = un_name[op]; d_a = a; d_cap = ca; d_set = "its scalar range";
 			vh_publish_desc();
 			nk = un_range(op, ca);
@@ -398,7 +398,7 @@ run_queries(const vset_t *sa) {
 	for (i = 0; i < sa->n; i ++) {
 		vs_get(sa, i, &av);
 		for (ca = cap_min(a); ca <= MAXCAP; ca ++) {
-			if (!vh_begin(un_name[U_QUERIES])) continue;
+			if (!begin_case(un_name[U_QUERIES])) continue;
 			d_op = un_name[U_QUERIES]; d_a = av; d_cap = ca; d_set = "-";
 			for (f = 0; f < 2; f ++) {
 				volatile size_t v = 0; int bl = r_bitlen(a), pop = 0, b;
